@@ -203,12 +203,26 @@ func (c *Config) Parent() *Config {
 
 // FlattenedKeys return a sorted flattened views of the set keys in the configuration
 func (c *Config) FlattenedKeys(opts ...Option) []string {
+	return c.flattenedKeys(nil, opts)
+}
+
+// flattenedKeys collects the keys of c. The configs currently being visited
+// are passed in active: a reference back to one of them ends the traversal
+// instead of recursing forever.
+func (c *Config) flattenedKeys(active []*Config, opts []Option) []string {
 	var keys []string
 	normalizedOptions := makeOptions(opts)
 
 	if normalizedOptions.pathSep == "" {
 		normalizedOptions.pathSep = "."
 	}
+
+	for _, a := range active {
+		if a.fields == c.fields {
+			return nil
+		}
+	}
+	active = append(active, c)
 
 	if c.IsDict() {
 		for _, v := range c.fields.dict() {
@@ -219,7 +233,7 @@ func (c *Config) FlattenedKeys(opts ...Option) []string {
 				p := ctx.path(normalizedOptions.pathSep)
 				keys = append(keys, p)
 			} else {
-				newKeys := subcfg.FlattenedKeys(opts...)
+				newKeys := subcfg.flattenedKeys(active, opts)
 				keys = append(keys, newKeys...)
 			}
 		}
@@ -232,7 +246,7 @@ func (c *Config) FlattenedKeys(opts ...Option) []string {
 				p := ctx.path(normalizedOptions.pathSep)
 				keys = append(keys, p)
 			} else {
-				newKeys := scfg.FlattenedKeys(opts...)
+				newKeys := scfg.flattenedKeys(active, opts)
 				keys = append(keys, newKeys...)
 			}
 		}
